@@ -10,9 +10,9 @@ observation, satisfies the clause for every state, caller, operation and oracle 
 clause that fires on the code is a disagreement with the statement *and* with the model, never
 an artefact of the clause.
 
-Proved here: C01 `denied_noeffect`, `effect_only_if_granted`, `list_exact`, `changes_only_granted`; C02 `inv`, `reads`, `frame`, `delete_version`, `active`, `bytes_stable` (and
+Proved here: C01 `denied_noeffect`, `effect_only_if_granted`, `list_exact`, `changes_only_granted`; C02 `inv`, `put`, `reads`, `frame`, `delete_version`, `active`, `bytes_stable` (and
 `reads_total`, `failed_noop` in Properties/C02.lean); C04 `mem_eq_disk`, `savefail_noop`; C06 `recorded`, `before_effect`, `fail_closed`, `unchanged_silent`;
-C09 `cond`; C18 `acknowledged_bytes_kept` (under the store invariant).  Not yet proved of the model: C02 `put`; C04 `gen_iff_saved`
+C09 `cond`; C18 `acknowledged_bytes_kept` (under the store invariant).  Not yet proved of the model: C04 `gen_iff_saved`
 (their content is stated as theorems about the model in the property files, in other words).
 -/
 namespace Setec.MonSound
@@ -790,5 +790,56 @@ theorem c02_inv_sound_reachable (xs : List Call) (c : Caller) (op : Op) (aok sok
   c02_inv_sound _ c op aok sok (run_inv Cfg.std KV.empty inv_empty xs)
     (run_nameInv KV.empty inv_empty (by intro n s h; simp [KV.empty] at h) xs)
 
+
+theorem singleton_toList (val : Bytes) : ((∅ : VMap).insert 1 val).toList = [(1, val)] := by
+  have hlen : ((∅ : VMap).insert 1 val).toList.length = 1 := by
+    rw [ExtTreeMap.length_toList, ExtTreeMap.size_insert]; simp
+  have hmem : (1, val) ∈ ((∅ : VMap).insert 1 val).toList :=
+    ExtTreeMap.mem_toList_iff_getElem?_eq_some.mpr (by simp)
+  generalize ((∅ : VMap).insert 1 val).toList = l at hlen hmem
+  match l, hlen, hmem with
+  | [x], _, hm => simp at hm; rw [hm]
+
+theorem c02_put_sound (kv : KV) (c : Caller) (op : Op) (aok sok : Bool) (h : Inv kv) :
+    c02_put (obsOf kv c op aok sok) = true := by
+  have hs := fun op a s => step_outcome kv c op a s
+  cases op with
+  | put n val =>
+    simp (disch := simp) only [c02_put, obsOf, hs, outcome, wellFormed, actionOf, nameOf, exec]
+    by_cases hn : n = ""
+    · simp [hn]
+    · by_cases hg : grantedStd c "put" n = true
+      · cases aok with
+        | false => simp [hn, hg]
+        | true =>
+          simp only [hg]
+          by_cases hp : hasPrefix Cfg.std n = true
+          · simp [hn, hp]
+          · simp only [hp]
+            cases hsec : kv.secrets[n]? with
+            | none =>
+              cases sok with
+              | false => simp [hn, KV.put, hsec, save, kvErr]
+              | true => simp [hn, KV.put, hsec, save, newSecret, singleton_toList]
+            | some s =>
+              by_cases hd : dedupe true s val = true
+              · have hcur : s.versions[s.latest]? = some val := by
+                  simp only [dedupe] at hd
+                  split at hd
+                  · next cur hc => simp at hd; rw [hc, hd]
+                  · simp at hd
+                simp [hn, KV.put, hsec, hd, hcur, secEq]
+              · cases sok with
+                | false => simp [hn, KV.put, hsec, hd, save, kvErr]
+                | true =>
+                  have hnone : s.versions[s.latest + 1]? = none := by
+                    cases hx : s.versions[s.latest + 1]? with
+                    | none => rfl
+                    | some b =>
+                      have := ((h n s hsec).2 (s.latest + 1) (ExtTreeMap.mem_iff_isSome_getElem?.mpr (by simp [hx]))).2
+                      omega
+                  simp [hn, KV.put, hsec, hd, save, putNewMutate, hnone]
+      · simp [hn, hg]
+  | _ => simp [c02_put, obsOf]
 
 end Setec.MonSound
